@@ -594,3 +594,8 @@ M("C21", "merge drops the special case for the end point", "kill",
 M("C21", "twin: merge written with the De Morgan dual", "twin",
   [(PA, "        if merged and t - merged[-1] <= _TIME_MERGE_TOLERANCE:\n            if t == 1.0:\n                merged[-1] = t\n            continue\n        merged.append(t)",
     "        if not merged or t - merged[-1] > _TIME_MERGE_TOLERANCE:\n            merged.append(t)\n        elif t == 1.0:\n            merged[-1] = t")])
+M("C16", "density-matrix stepper reuses a generator passed in", "kill",
+  [(TE, "        pulser_lindblads: list[torch.Tensor],\n    ) -> tuple[torch.Tensor, RydbergLindbladian]:\n        ham = EvolveDensityMatrix.get_hamiltonian(",
+    "        pulser_lindblads: list[torch.Tensor],\n        ham: RydbergLindbladian | None = None,\n    ) -> tuple[torch.Tensor, RydbergLindbladian]:\n        ham = ham or EvolveDensityMatrix.get_hamiltonian(")], "ROLE-sv")
+M("C04", "Hamiltonian type chosen from the basis name", "kill",
+  [(PA, "        int_type = self.hamiltonian.basis_data.interaction_type\n", "        int_type = {\"XY\": \"XY\"}.get(self.hamiltonian.basis_data.basis_name, \"ising\")\n")], "DISPATCH-hamiltonian")
